@@ -175,6 +175,11 @@ pub fn run_c05(p: &mut Prng, t: Tier, i: usize, sink: &mut Sink) {
         sink.done(w);
         return;
     }
+    // in a third of the runs every buffer handed to the library is placed by the simulator
+    // (unaligned start; end flush against an unmapped page)
+    if p.chance(1, 3) {
+        w.exec(json!({"op":"place.policy","seed":p.next_u64()}));
+    }
     let nsess = p.range(1, 3);
     let mut queues = vec![];
     for k in 0..nsess {
